@@ -358,6 +358,9 @@ class Connection(object):
             try:
                 tx_size = sock.send(data)
                 self._logger.debug('Sent %d octets', tx_size)
+            except (BlockingIOError, ssl.SSLWantWriteError):
+                # socket buffer is full: keep the data and try again later
+                return True
             except socket.error as err:
                 self._logger.error('Failed to "send" on socket: %s', err)
                 tx_size = None
